@@ -424,6 +424,22 @@ def nikolaev(ctx):
                 ctx.check(ok, "OWN.move-out-destroy", pat + "#destroy|index-left-allocated-queue", "element destroyed only after its index was dequeued from (or never entered) the allocated queue",
                           "an element is destroyed while its index is still in the allocated queue: the node destructor drains that queue and destroys the element a second time",
                           fn.where(d), fn=fn)
+    # the cell storage has as many cells as the index queues hand out indices
+    NB = X + "nikolaev_bounded_queue::"
+    for fn in flow._shapes(ctx, NB + "nikolaev_bounded_queue"):
+        news = [e for e, n_ in enumerate(fn.nodes) if n_["k"] == "new" and n_.get("array") and isinstance(n_.get("asize"), int)]
+        scqs = [e for e in flow.find(fn, {"k": "construct", "callee": "nikolaev_scq::nikolaev_scq"}) if len(fn.kids(e)) >= 2]
+        inst = NB + "nikolaev_bounded_queue#storage-size=index-range"
+        if not news or not scqs:
+            ctx.broken.append("nikolaev_bounded_queue constructor: storage allocation (%d) / index queue construction (%d) not found" % (len(news), len(scqs)))
+            continue
+        sz = {frozenset(flow.srcs(fn, fn.nodes[e]["asize"])) for e in news}
+        cap = {frozenset(flow.srcs(fn, fn.kids(e)[0])) for e in scqs}
+        ok = len(cap) == 1 and sz == cap
+        ctx.check(ok, rid2, inst, "storage cells and index queues are sized by the same expression",
+                  "the cell storage is allocated with %s elements but the index queues hand out indices of a range sized by %s: with a capacity that is not a power of two "
+                  "elements are constructed beyond the end of the storage" % (" / ".join(fn.expr(fn.nodes[e]["asize"]) for e in news), " / ".join(sorted({fn.expr(fn.kids(e)[0]) for e in scqs}))),
+                  fn.where(news[0]), fn=fn)
     for fn in flow._shapes(ctx, X + "nikolaev_bounded_queue::try_push"):
         pn = flow.find(fn, PLACEMENT_NEW)
         enq = [e for e in flow.find(fn, call("nikolaev_scq::enqueue")) if "_allocated_queue" in fn.expr(e)]
@@ -629,6 +645,50 @@ def kfifo(ctx):
     # region predicate of the bounded variant: tail_old lies in the circular interval (head, tail]
     from .evalx import eval_pure
     B_ = X + "kirsch_bounded_kfifo_queue::"
+    # head and tail move in whole segments
+    rid7 = "KF.segment-step"
+    ctx.rule(rid7, "bounded k-FIFO: every CAS on _head / _tail installs either the same index (tag-only bump) or the index of the next segment, "
+                   "(index + k) mod queue_size - finite evaluation of the index argument of the desired value for k in {2,3}, 3 segments, every segment start")
+    n_step = 0
+    for fn in ctx.facts.fns:
+        if not fn.pat.startswith(B_) or fn.inlined_helper:
+            continue
+        for a in fn.atomics():
+            if a["kind"] != "cas" or not (a["field"].endswith("::_head") or a["field"].endswith("::_tail")):
+                continue
+            e = a["nid"]
+            des = fn.kids(e)[2]
+            for _ in range(8):
+                dn = fn.nodes[des]
+                if dn["k"] == "cast" or (dn["k"] == "construct" and len(fn.kids(des)) == 1):
+                    des = fn.kids(des)[0]
+                elif dn["k"] == "ref" and dn.get("dk") == "local" and flow.unique_def(fn, dn["name"]) is not None:
+                    des = flow.unique_def(fn, dn["name"])
+                else:
+                    break
+            if fn.nodes[des]["k"] != "construct" or len(fn.kids(des)) < 2:
+                ctx.broken.append("%s: desired value of the %s CAS is not a marked_idx(index, tag) construction" % (fn.pat, a["field"].split("::")[-1]))
+                continue
+            idx_expr = fn.kids(des)[0]
+            bad = None
+            try:
+                for k in (2, 3):
+                    size = 3 * k
+                    for h in range(0, size, k):
+                        env = {"call:get": (lambda h=h: h), "_k": k, "this._k": k, "_queue_size": size, "this._queue_size": size}
+                        got = evalx(fn, idx_expr, env)
+                        if got not in (h, (h + k) % size):
+                            bad = (k, size, h, got)
+            except Unknown as ex:
+                ctx.broken.append("%s: index of the desired %s not evaluable (%s)" % (fn.pat, a["field"].split("::")[-1], ex))
+                continue
+            n_step += 1
+            ctx.check(bad is None, rid7, "%s#cas(%s)@L-%s" % (fn.pat, a["field"].split("::")[-1], fn.expr(idx_expr)[:40]), "index stays or moves to the next segment",
+                      "with k=%s, queue_size=%s the CAS moves %s from index %s to %s, which is not a segment start: pops then scan a window straddling two segments "
+                      "(elements overtaken by k or more) and head can never meet tail again (pop on a drained queue / push on a full one never return)" % (
+                          (bad[0], bad[1], a["field"].split("::")[-1], bad[2], bad[3]) if bad else (0, 0, "", 0, 0)), fn.where(e), fn=fn)
+    if n_step < 4:
+        ctx.broken.append("KF.segment-step: only %d head/tail CAS sites evaluated" % n_step)
     rid4 = "KF.region-predicate"
     ctx.rule(rid4, "bounded k-FIFO: in_valid_region(tail_old, tail_current, head_current) holds exactly when tail_old lies in the circular interval "
                    "(head_current, tail_current] - exhaustive finite evaluation of the predicate over all index triples of a ring of size 6")
